@@ -391,7 +391,7 @@ def r05_9(ctx):
                             bs = op_bytes(s[1])
                 if bs is not None and b'"' in bs and t["callee"].rsplit("::", 1)[-1] in ("write_all", "write", "extend_from_slice", "push"):
                     sites.append((b, t["ln"], f"{t['callee'].rsplit('::', 1)[-1]}({bs!r})"))
-                elif op_int(a) == 0x22 and a.get("ty") == "u8" and t["callee"].rsplit("::", 1)[-1] in ("write", "push", "write_volatile", "write_unaligned"):
+                elif op_int(a) == 0x22 and a.get("ty") == "u8" and (t["callee"].rsplit("::", 1)[-1] in ("write", "push", "write_volatile", "write_unaligned") or (t["callee"] in prog.fns and prog.fns[t["callee"]].crate == "sonic_rs")):
                     sites.append((b, t["ln"], f"{t['callee'].rsplit('::', 1)[-1]}(b'\"')"))
         if f.name == "format_string":
             ctx.floor("R05.9", "quote stores in format_string", len(sites), 2)
@@ -404,6 +404,64 @@ def r05_9(ctx):
                 last = t["args"][-1]
                 okf = op_local(last) in nq_l
                 ctx.ob("R05.9", f"{short(f.id)}:forwards-need_quote", okf, f.loc(t["ln"]), "need_quote is forwarded unchanged" if okf else "need_quote is not forwarded to the callee")
+
+
+def _edges_into_are_guarded(f, D, lanes, ccp, seen=None, depth=0):
+    """every control-flow edge into block D is the `enough bytes` edge of a comparison with LANES, the no-crossing edge of
+    check_cross_page(ptr, LANES), or comes from a block that merely passes control on (goto / switch on a constant / on a
+    value derived from neither test) all of whose own incoming edges are so guarded"""
+    seen = seen or set()
+    if D in seen or depth > 8:
+        return False
+    seen = seen | {D}
+    preds = [p for p in f.preds.get(D, []) if not f.blocks[p].get("cleanup")]
+    if not preds:
+        return False
+    for p in preds:
+        t = f.blocks[p]["term"]
+        good = False
+        if t["k"] == "switch" and op_local(t["discr"]) is not None:
+            dl = op_local(t["discr"])
+            # the length test
+            for bb, i, s in f.assigns():
+                rv = s["rv"]
+                if rv["k"] == "binop" and rv["op"] in ("Ge", "Gt", "Lt", "Le") and (op_int(rv["b"]) == lanes or op_int(rv["a"]) == lanes):
+                    e = bool_switch_edges(f, s["lhs"][0])
+                    if e and _switch_block_of(f, s["lhs"][0]) == p:
+                        c_right = op_int(rv["b"]) == lanes
+                        enough = e[0] if (rv["op"] == "Ge" and c_right) or (rv["op"] == "Le" and not c_right) else e[1] if (rv["op"] == "Lt" and c_right) or (rv["op"] == "Gt" and not c_right) else None
+                        if enough == D:
+                            good = True
+            # the page test
+            for cb, ct in ccp:
+                if op_int(ct["args"][1]) == lanes and _switch_block_of(f, ct["dest"][0]) == p:
+                    e = bool_switch_edges(f, ct["dest"][0])
+                    if e and e[1] == D and e[0] != D:
+                        good = True
+        if not good:
+            # a pass-through block: no call, and reached only over guarded edges
+            if t["k"] in ("goto", "switch") and not any(bb == p for bb, tt in f.calls()):
+                good = _edges_into_are_guarded(f, p, lanes, ccp, seen, depth + 1)
+        if not good:
+            return False
+    return True
+
+
+def _switch_block_of(f, bool_local):
+    """block whose switch tests (a copy / negation of) bool_local"""
+    for b, t in f.terms():
+        if t["k"] != "switch":
+            continue
+        cur = op_local(t["discr"])
+        for _ in range(10):
+            if cur == bool_local:
+                return b
+            d = f.single_def(cur) if cur is not None else None
+            if d and d[0] == "stmt" and d[3]["rv"]["k"] in ("use", "unop"):
+                cur = op_local(d[3]["rv"].get("op", d[3]["rv"].get("a")))
+            else:
+                break
+    return None
 
 
 def r05_8(ctx):
@@ -423,7 +481,7 @@ def _r05_8_cfg(ctx, cfg):
     f = prog.find("util::string::format_string")
     lanes = prog.const_int("format_string::LANES")
     loads = [(b, t) for b, t in f.calls() if callee_is(t, "load") and "string::load" in t["callee"]]
-    ctx.floor("R05.8", f"{tag}vector loads in format_string", len(loads), 2)
+    ctx.floor("R05.8", f"{tag}vector loads in format_string", len(loads), 1)
     ccp = [(b, t) for b, t in f.calls() if callee_is(t, "check_cross_page")]
     cc = prog.find("util::string::check_cross_page")
     consts = sorted({op_int(o) for b, s, o in cc.const_operands() if op_int(o) is not None and op_int(o) > 1})
@@ -437,6 +495,35 @@ def _r05_8_cfg(ctx, cfg):
         if via_temp:
             # the temporary is LANES bytes long
             ctx.ob("R05.8", f"{tag}load#{k}:temp", True, f.loc(t["ln"]), "load from the zero-padded LANES-byte temporary")
+            continue
+        # the pointer is selected beforehand (`let block = if short && crosses { temp } else { src }`): the clause is about the
+        # place where the source pointer is chosen - every edge into it is the `>= LANES` edge of the length test or the
+        # no-page-crossing edge of the page test (through blocks that only pass control on)
+        for _ in range(4):      # the operand is a copy of the selected pointer
+            dd = f.single_def(l) if l is not None else None
+            if dd and dd[0] == "stmt" and dd[3]["rv"]["k"] == "use" and op_local(dd[3]["rv"]["op"]) is not None:
+                l = op_local(dd[3]["rv"]["op"])
+            else:
+                break
+        def temp_ptr(d):    # `temp.as_ptr()` of a local buffer, not of the caller's string
+            if d[0] != "call" or not callee_is(d[2], "as_ptr") or not d[2]["args"] or op_local(d[2]["args"][0]) is None:
+                return False
+            return not any(lf[0] == "param" for lf in backward_slice(f, [op_local(d[2]["args"][0])])[1])
+        if l is not None and len(f.defs.get(l, [])) >= 2 and any(temp_ptr(d) for d in f.defs[l]):
+            sel_ok = True
+            detail = []
+            for d in f.defs[l]:
+                if d[0] == "call":
+                    if not temp_ptr(d):
+                        sel_ok = False
+                        detail.append(f"pointer from {d[2]['callee'].rsplit('::', 1)[-1]}")
+                    continue
+                good = _edges_into_are_guarded(f, d[1], lanes, ccp)
+                detail.append(f"source pointer chosen at line {d[3].get('ln')}: {'every edge into it is guarded' if good else 'an unguarded edge reaches it'}")
+                sel_ok = sel_ok and good
+            ctx.ob("R05.8", f"{tag}load#{k}:selected", sel_ok and page_ok, f.loc(t["ln"]),
+                   ("the load reads the zero-padded temporary or the source pointer chosen only on the `>= LANES` / no-page-crossing edges: " + "; ".join(detail)) if sel_ok and page_ok else
+                   f"a {lanes}-byte vector load reads the source pointer on a path that passed neither the full-block test nor the page-crossing check ({'; '.join(detail)}): it can read past the end of the string into an unmapped page")
             continue
         # direct load from the source pointer
         in_loop = False
